@@ -11,9 +11,10 @@ for f in sorted(glob.glob(V + '/seeded/RESULTS.*.md')):
             rows.append(l.rstrip())
 rows.sort()
 caught = sum('caught' in r for r in rows)
+obsolete = sum('obsolete' in r for r in rows)
 with open(V + '/seeded/RESULTS.md', 'w') as o:
-    o.write('# Seeded changes vs. the current checks\n\n%s\n\n%d seeds, %d caught, %d not caught by the quick check of the property they break\n\n'
-            % (heads[0] if heads else '', len(rows), caught, len(rows) - caught))
+    o.write('# Seeded changes vs. the current checks\n\n%s\n\n%d seeds, %d caught, %d obsolete, %d not caught by the quick check of the property they break\n\n'
+            % (heads[0] if heads else '', len(rows), caught, obsolete, len(rows) - caught - obsolete))
     o.write('| seed | property | result | violation keys (first 3) | wall |\n|---|---|---|---|---|\n')
     o.write('\n'.join(rows) + '\n')
 for f in glob.glob(V + '/seeded/RESULTS.*.md'):
